@@ -497,6 +497,14 @@ func changed(last *[]string, k int, s Sx, out *[]Sx) {
 	*out = append(*out, L(I(k), s))
 }
 
+// shKey: tick0 and the size of the registry as instance k sees them (the registry is one map for all instances)
+func (w *world) shKey(k int) string {
+	tk := w.insts[tTK][k].(*c08.TicksSinceStart)
+	t0, _ := tk.VerifC08Tick0()
+	nt, nh := tk.VerifC08RegistrySize()
+	return fmt.Sprint(t0.Unix(), nt, nh)
+}
+
 func (w *world) shOf(k int) Sx {
 	tk := w.insts[tTK][k].(*c08.TicksSinceStart)
 	t0, _ := tk.VerifC08Tick0()
@@ -555,10 +563,10 @@ func (w *world) snapshot(touched map[int]bool) []Sx {
 		}
 	}
 	sh := w.shOf(0)
-	shs := sh.String()
+	shs := w.shKey(0)
 	for k := 0; k < n; k++ {
 		// every instance involved in the operation must (still) see the registry of the origin; all of them at the end
-		if (touched == nil || touched[k]) && w.shOf(k).String() != shs {
+		if (touched == nil || touched[k]) && w.shKey(k) != shs {
 			diff = append(diff, I(k))
 		}
 	}
@@ -939,7 +947,7 @@ var curWorld *world
 
 // hangTimeout bounds one run (twenty times as much for the large cases); memLimit bounds the heap
 const hangTimeout = 30 * time.Second
-const memLimit = 1500 << 20
+const memLimit = 6 << 30
 
 var memExceeded = make(chan struct{})
 var hung bool
@@ -1174,6 +1182,7 @@ type histGen struct {
 	commits  []plCommit
 	nextBlob int
 	nextPid  int
+	fixed    bool // no new files (large cases)
 	wild     bool // arbitrary trees (deletions, the same blob under several paths); else every line of development edits its own files
 }
 
@@ -1216,7 +1225,7 @@ func (g *histGen) add(l *line, parents []int) int {
 	}
 	if len(parents) <= 1 || rng.Intn(4) == 0 {
 		for k := 1 + rng.Intn(2); k > 0; k-- {
-			if len(l.own) == 0 || (len(l.own) < 3 && rng.Intn(4) == 0) {
+			if len(l.own) == 0 || (!g.fixed && len(l.own) < 3 && rng.Intn(4) == 0) {
 				g.nextPid++
 				l.own = append(l.own, g.nextPid)
 			}
@@ -1497,9 +1506,10 @@ func directed(c *Config) {
 // scale: long histories (the unit is commits / branches): a comb of n/4 forks of arity 2..5 along a trunk of n commits
 func scaleCase(rng *rand.Rand, n int, bd bool) caseIn {
 	g := &histGen{rng: rng, size: 24}
-	trunk := &line{time: plBase}
+	g.nextPid, g.fixed = 12, true
+	trunk := &line{time: plBase, own: []int{1, 6}}
 	g.chain(trunk, 2)
-	second := &line{time: plBase}
+	second := &line{time: plBase, own: []int{11, 12}}
 	g.chain(second, 3)
 	g.add(trunk, []int{trunk.tip, second.tip})
 	for len(g.commits) < n {
@@ -1507,7 +1517,8 @@ func scaleCase(rng *rand.Rand, n int, bd bool) caseIn {
 		var arms []*line
 		var lens []int
 		for a := 0; a < arity; a++ {
-			arms = append(arms, &line{tip: trunk.tip, time: trunk.time})
+			// the arms of one section edit different files, the sections follow each other: a pool of ten files
+			arms = append(arms, &line{tip: trunk.tip, time: trunk.time, own: []int{a + 1, a + 6}})
 			lens = append(lens, 1+rng.Intn(4))
 		}
 		g.grow(arms, lens)
